@@ -127,6 +127,8 @@ func newWsHandshakeHandler() *wsHandshakeHandler {
 }
 
 func (ws *wsHandshakeHandler) ServeHTTP(w http.ResponseWriter, r *http.Request) {
+	// whoever waits on finished must be released whether or not the upgrade succeeded: ws.conn stays nil on failure
+	defer close(ws.finished)
 	upgrader := websocket.Upgrader{}
 	c, err := upgrader.Upgrade(w, r, nil)
 	if err != nil {
@@ -134,5 +136,4 @@ func (ws *wsHandshakeHandler) ServeHTTP(w http.ResponseWriter, r *http.Request) 
 		return
 	}
 	ws.conn = &common.WebSocketConn{Conn: c}
-	ws.finished <- struct{}{}
 }
